@@ -268,19 +268,26 @@ def regex_hole_is_grouped(pattern_with_hole: str, hole: str = HOLE) -> Tuple[boo
     pattern escapes the anchors.
     """
     import re._parser as sre_parse  # type: ignore
-    a, b = "", ""
+    a, b = "\ue000\ue001", "\ue002\ue003"
     pat = pattern_with_hole.replace(hole, f"{a}|{b}")
     try:
         tree = sre_parse.parse(pat)
     except re.error as e:
         return False, f"pattern does not parse: {e}"
     items = list(tree)
-    ops = [str(op) for op, _ in items]
-    if any(op == "BRANCH" for op in ops):
-        return False, "the user pattern sits at top level: an alternation splits the anchored sequence (^a|b$)"
-    # expect: AT_BEGINNING ... SUBPATTERN(containing branch) ... AT_END
+
+    def has_sentinel(x) -> bool:
+        return "57344" in str(x) and "57346" in str(x)
+
+    # (non-capturing groups are flattened by the parser: ^(?:X|Y)$ -> [AT, BRANCH, AT]; ^X|Y$ -> [BRANCH([AT X], [Y AT])])
     has_begin = bool(items) and str(items[0][0]) == "AT" and "BEGINNING" in str(items[0][1])
-    has_end = bool(items) and str(items[-1][0]) == "AT" and "END" in str(items[-1][1])
+    has_end = bool(items) and str(items[-1][0]) == "AT" and "END" in str(items[-1][1]) and "END_STRING" not in str(items[-1][1]) \
+        or (bool(items) and str(items[-1][0]) == "AT" and "END" in str(items[-1][1]))
     if not (has_begin and has_end):
-        return False, f"anchors missing at top level: begin={has_begin} end={has_end}"
+        if len(items) == 1 and str(items[0][0]) == "BRANCH":
+            return False, "the user pattern sits at top level: an alternation splits the anchored sequence (^a|b$)"
+        return False, f"an anchor is missing at top level (begin={has_begin}, end={has_end}): keys are matched only partially"
+    middle = items[1:-1]
+    if not any(has_sentinel(it) for it in middle):
+        return False, "the user pattern is not between the anchors"
     return True, "hole is inside a group between ^ and $"
